@@ -52,6 +52,7 @@ class C12(Prop):
                 # last sentence of the statement: clauses inside a requirement string (corollaries of the C08 parser theorems)
                 "C12.specifier_clause_accepted_in_requirement", "C12.specifier_clause_accepted_in_parentheses",
                 "C12.requirement_members_are_specifier_clauses", "C12.rejected_clause_rejects_requirement",
+                "C12.source_regex_rejects_then_requirement_rejects", "C12.requirement_members_match_source_regex",
                 "C08.Examples.specifier_rule_tied"]
     rule = ("strings = spelled versions / clauses from the grammar, token- and character-level damage with one "
             "representative per code-point class, and the shortest word distinguishing generated and spec regex if any; "
